@@ -9,6 +9,7 @@ import (
 	"context"
 	"errors"
 	"fmt"
+	"io"
 
 	astits "github.com/asticode/go-astits"
 	"verif/checks"
@@ -138,6 +139,59 @@ func shortAutoBody(name string, stream []byte) Body {
 	}}
 }
 
+// retainingReader is neither seekable nor a bufio.Reader (auto-detection has to realign it by reading and
+// discarding), and it keeps every slice it was handed: a buffer the Demuxer gives to its reader belongs to that
+// Demuxer alone, so what the reader wrote into it is still there when the stream has been read.
+type retainingReader struct {
+	b      []byte
+	off    int
+	given  [][]byte
+	copies [][]byte
+}
+
+func (r *retainingReader) Read(p []byte) (int, error) {
+	if r.off >= len(r.b) {
+		return 0, io.EOF
+	}
+	n := copy(p, r.b[r.off:])
+	r.off += n
+	if len(r.given) < 8 {
+		r.given = append(r.given, p[:n])
+		r.copies = append(r.copies, append([]byte{}, p[:n]...))
+	}
+	return n, nil
+}
+
+// plainAutoBody: packet size auto-detection on plain readers (different streams per reader), two demuxers used in
+// turn: the buffers the first one handed to its reader during detection are compared after the second one ran.
+func plainAutoBody(name string, a, b []byte) Body {
+	return Body{Name: name, Run: func() ([]string, string) {
+		var res []string
+		prob := ""
+		ra, rb := &retainingReader{b: a}, &retainingReader{b: b}
+		da, db := astits.NewDemuxer(context.Background(), ra), astits.NewDemuxer(context.Background(), rb)
+		for _, d := range []*astits.Demuxer{da, db, da, db} {
+			for i := 0; i < 3; i++ {
+				x, err := d.NextPacket()
+				if err != nil {
+					res = append(res, err.Error())
+					break
+				}
+				res = append(res, mc.Canon(x))
+			}
+		}
+		for _, r := range []*retainingReader{ra, rb} {
+			for k := range r.given {
+				// only the detection reads (the first two) are not reused by the same Demuxer afterwards
+				if k < 2 && !bytes.Equal(r.given[k], r.copies[k]) && prob == "" {
+					prob = fmt.Sprintf("a buffer a Demuxer handed to its reader during packet size detection (Read call %d) was overwritten later", k)
+				}
+			}
+		}
+		return res, prob
+	}}
+}
+
 func muxBody(name string, seed int64) Body {
 	return Body{Name: name, Run: func() ([]string, string) {
 		w := checks.NewRecWriter()
@@ -207,5 +261,6 @@ func Bodies(seed int64) []Body {
 		shortAutoBody("demux-short-inputs-auto-detected", ss[0].Bytes),
 		demuxDataBody("demux-data:pool-capacity-boundary", checks.PoolBoundaryStream(seed)),
 		demuxPacketBody("demux-packets:pid-classes", checks.PIDClassesStream(seed).Bytes),
+		plainAutoBody("demux-auto-detection-on-plain-readers", ss[0].Bytes, ss[1].Bytes),
 	}
 }
